@@ -900,6 +900,29 @@ def mon_mo_weakened(case, lines):
     return None
 
 
+WINDOW_KINDS = (K['RD_BEGIN'], K['RD_END'], K['WR_BEGIN'], K['WR_END'], K['CALL'])
+
+
+def mon_write_outside_section(case, lines):
+    """every payload access (and every call of the payload's copy / assignment or of the functor) of a whole-object
+    operation lies between that operation's own acquisition of the mutex and its release"""
+    cfg = case['cfg']
+    for o in _ops(case, lines):
+        if o['op'][0] not in WHOLE or not available(cfg, o['op'][0]):
+            continue
+        ev = o['events']
+        locks = [j for j, (_, k, _, v) in enumerate(ev) if k in (K['LOCK'], K['LOCK_SH']) or (k in TRY_KINDS and v)]
+        unlocks = [j for j, (_, k, _, _) in enumerate(ev) if k in (K['UNLOCK'], K['UNLOCK_SH'])]
+        if not locks:
+            continue        # wrapper.whole_object_op_unlocked reports that
+        first = locks[0]
+        last = unlocks[-1] if unlocks else len(ev)
+        for j, (i, k, _, _) in enumerate(ev):
+            if k in WINDOW_KINDS and (j < first or j > last):
+                return 'thread %d: %s touches the payload (event kind %d, trace line %d) outside its critical section' % (o['t'], o['op'], k, i)
+    return None
+
+
 MONITORS = {
     'window_fault': mon_window_fault, 'lost_update': mon_lost_update, 'handle_truth': mon_handle_truth,
     'try_blocks': mon_try_blocks, 'release_balance': mon_release_balance, 'deadlock': mon_deadlock,
@@ -907,6 +930,6 @@ MONITORS = {
     'rw_overlap': mon_rw_overlap, 'reader_blocked': mon_reader_blocked,
     'linearizable': mon_linearizable, 'torn_load': mon_torn_load,
     'whole_object_op_unlocked': mon_whole_object_op_unlocked, 'unexpected_exception': mon_unexpected_exception,
-    'timed_gave_up_early': mon_timed_gave_up_early, 'list_init_copy': mon_list_init_copy, 'mo_weakened': mon_mo_weakened,
+    'write_outside_section': mon_write_outside_section, 'timed_gave_up_early': mon_timed_gave_up_early, 'list_init_copy': mon_list_init_copy, 'mo_weakened': mon_mo_weakened,
     'exchange_returns_replaced': mon_exchange_returns_replaced, 'timeout_overflow': mon_timeout_overflow, 'writer_lock_mode': mon_writer_lock_mode, 'assign_steals_source': mon_assign_steals_source, 'cas_truth': mon_cas_truth,
 }
